@@ -204,3 +204,31 @@ func verif_handlePing(ctl *Control, m msg.Message) {
 		verif.Ensures(verif.CalledBefore("Verifier).VerifyPing", "atomic.Value.Store"), "verified_before_refresh")
 	}
 }
+
+// ---------------------------------------------------------------- C08: visitor connections
+
+// The visitor's user is the login user of the session it names; an unknown
+// run id is refused; nothing the visitor sends can choose the user.
+//
+//verif:contract (*~/server.Service).RegisterVisitorConn
+//verif:props C08
+func verif_RegisterVisitorConn(svr *Service, visitorConn net.Conn, newMsg *msg.NewVisitorConn) {
+	runID := newMsg.RunID
+	ctl0, ok0 := svr.ctlManager.ctlsByRunID[runID]
+	verif.ResetEvents()
+	err := svr.RegisterVisitorConn(visitorConn, newMsg)
+	const evNewConn = "visitor.Manager).NewConn"
+	if verif.Called(evNewConn) {
+		if runID != "" {
+			verif.Ensures(verif.RetBool("ControlManager).GetByID", 1), "known_session_required")
+			verif.Ensures(verif.CalledWith(evNewConn, 7, verif.Ret[*Control]("ControlManager).GetByID", 0).loginMsg.User), "user_is_session_login_user")
+		} else {
+			verif.Ensures(verif.CalledWith(evNewConn, 7, ""), "legacy_visitor_has_empty_user")
+		}
+		verif.Ensures(verif.CalledWith(evNewConn, 1, newMsg.ProxyName) && verif.CalledWith(evNewConn, 3, newMsg.Timestamp) && verif.CalledWith(evNewConn, 4, newMsg.SignKey), "request_passed_unchanged")
+		verif.Ensures(err == verif.RetErr(evNewConn, 0), "result_is_managers")
+	} else {
+		verif.Ensures(err != nil, "not_forwarded_means_error")
+	}
+	_, _ = ctl0, ok0
+}
